@@ -55,6 +55,8 @@ class IdMap:
 def out_tokens(inst, perm, js):
     """Token form of the returned JSON for the `outcheck` driver command."""
     m = IdMap(inst, perm)
+    from . import timeconv
+    timeconv.prime(timeconv.times_of_json(js))
     o = js["objectiveValue"]
     sch = js["schedule"]
     lines = ["OUT", "obj %d %d %d %d" % (o["unservedPassengers"], o["maintenanceViolation"], o["vehicleCount"], o["costs"])]
